@@ -289,7 +289,7 @@ UNITS.append(default_config_files_unit("C04"))
 VERIFIED_CALLEES = ("self.merge_config", "self._parse_defaults_and_environ", "parser.merge_config")
 LEVEL = "other"
 TECHNIQUE = "contract-based deductive verification of the merge argument order and source sequence (VCs from the real AST over an abstract override operator, ghost events) + bounded run-time comparison with a reference fold"
-LEVEL_TEXT = 'Proved on the real bodies over an abstract override operator: environment overrides defaults (_parse_defaults_and_environ), merge_config(from, to) = to overridden by from on clones, parse_args seeds argparse with ov(ov(defaults, env), namespace), parse_object / parse_string merge orders, a config file takes effect at its position (apply_config), and _load_env_vars applies config variable, subcommand, individual variables in this order whatever the declaration order. Bounded only: the end-to-end fold over real sources (0-3 default config files, env config, env variables, <= 3-4 argv items) against a reference fold.'
+LEVEL_TEXT = 'Proved on the real bodies over an abstract override operator: environment overrides defaults (_parse_defaults_and_environ), merge_config(from, to) = to overridden by from on clones, parse_args seeds argparse with ov(ov(defaults, env), namespace), parse_object / parse_string merge orders, a config file takes effect at its position (apply_config), and _load_env_vars applies config variable, subcommand, individual variables in this order whatever the declaration order. Also under contract: set_defaults / get_default (the first source of the chain), _get_default_config_files per file (an unreadable match is skipped alone; the all-or-nothing behaviour was refuted and fixed). Bounded only: the end-to-end fold over real sources (0-3 default config files, env config, env variables, <= 3-4 argv items) against a reference fold.'
 LEVEL_NOTE = "under construction"
 EXPLANATION = "under construction"
 ASSUMPTIONS = []
